@@ -31,7 +31,7 @@ class _Sort:
     def __getitem__(self, k): return self
 
 
-Int = Real = Bool = Arr1 = Arr2 = Arr3 = Arr1i = Arr2i = Arr1b = Arr2b = SetOf = ListOf = Tup = DictOf = _Sort()
+Int = Real = Bool = Arr1 = Arr2 = Arr3 = Arr1i = Arr2i = Arr2o = Arr1b = Arr2b = SetOf = ListOf = Tup = DictOf = _Sort()
 NoneType = Opaque = Callable = Gen = Seed = Obj = Str = IntOrNone = DictIv = _Sort()
 
 
@@ -369,6 +369,66 @@ def imec_of(A, I):
 def union_graph(Gs):
     import numpy as np
     return (np.sum([_pat(G) for G in Gs], axis=0) != 0).astype(int)
+
+
+_COMP_CACHE = {}
+
+
+def compelled(G, a, b):
+    """the edge a -> b of the DAG G is directed a -> b in every member of its Markov equivalence class (brute force)"""
+    P = _pat(G)
+    key = (P.shape, P.tobytes())
+    if key not in _COMP_CACHE:
+        if len(_COMP_CACHE) > 64:
+            _COMP_CACHE.clear()
+        _COMP_CACHE[key] = [_pat(D) for D in mec_of(P)]
+    return bool(P[a, b]) and all(D[a, b] for D in _COMP_CACHE[key])
+
+
+def valid_edge_order(ordered):
+    """Chickering's total order of the edges of a DAG, in sempler's convention (largest label = first edge): the labels are 1..m,
+    each once, and SOME topological order `pos` of the nodes exists such that, by DESCENDING label, edges are sorted by pos(head)
+    ascending and, for one head, by pos(tail) descending.  Checked exactly:
+    the labels must come in one block per head, and the precedence constraints (graph edges, block order of the heads, tails
+    inside a block) must be acyclic."""
+    import numpy as np
+    o = np.asarray(ordered)
+    p = len(o)
+    es = sorted((int(o[a, b]), a, b) for a in range(p) for b in range(p) if o[a, b] != 0)
+    if [l for l, _, _ in es] != list(range(1, len(es) + 1)):
+        return False
+    es = es[::-1]       # sempler labels the edges in the reverse of Chickering's order (label_edges starts from the largest label)
+    before = np.zeros((p, p), dtype=int)        # before[u, v]: u must precede v
+    heads = []
+    for _, a, b in es:
+        before[a, b] = 1
+        if not heads or heads[-1] != b:
+            if b in heads:
+                return False                     # the labels of one head are not contiguous
+            heads.append(b)
+    for h1, h2 in zip(heads, heads[1:]):
+        before[h1, h2] = 1
+    for (_, a, b), (_, a2, b2) in zip(es, es[1:]):
+        if b == b2:
+            before[a2, a] = 1                    # later label, same head: its tail comes earlier
+    return acyclic(before)
+
+
+def chickering_order(G, flip=False):
+    """an edge order satisfying valid_edge_order, built independently of the library (own topological order)"""
+    import numpy as np
+    P = _pat(G)
+    p = len(P)
+    pos, left = {}, set(range(p))
+    while left:
+        srcs = [v for v in sorted(left, reverse=flip) if not any(P[u, v] for u in left)]
+        pos[srcs[0]] = len(pos)
+        left.discard(srcs[0])
+    es = sorted(((pos[b], -pos[a]), a, b) for a in range(p) for b in range(p) if P[a, b])
+    o = np.zeros((p, p), dtype=int)
+    for k, (_, a, b) in enumerate(es):
+        o[a, b] = len(es) - k      # sempler's convention: Chickering's first edge carries the largest label
+    return o
 
 
 def same_pattern(A, B):
